@@ -70,6 +70,100 @@ CHECKS.update({
         'DESIGN.md section 4 (C10)'),
 })
 
+CHECKS.update({
+    'C06': (
+        'property-based testing: Hypothesis generators for closed-form inverses, SPD operators with bounded condition number under generated solver settings, and non-square operators; numpy inverse / pseudo-inverse oracle and calibrated residual bounds',
+        'Closed forms: round trips A.I(A(x)) = x = A(A.I(x)), dense form vs numpy (pseudo-)inverse, A.I.I; diagonals with '
+        'zeros stay finite on 1e30 inputs. SPD without closed form under `with Config(solver=CG(rtol, atol, max_steps))`: '
+        'residual and solution error within 10x the configured tolerance (calibrated), as_matrix == numpy inverse. '
+        'Non-square operators must refuse inversion. ' + EXPL,
+        'Condition numbers <= 1e2 (float32) / 1e3 (float64); lazy inverses only on uniform-dtype structures; CG bound calibrated at design time.',
+        'DESIGN.md section 4 (C06)'),
+    'C07': (
+        'model-based property testing: Hypothesis typed token chains (patterns embedded in inert contexts, purpose-built cascades) compared with a reference reducer over tokens; re-submission of every adjacent pair of the result to all registered rules; scalar-factor invariants',
+        'For generated chains the token sequence of reduce() must equal that of a reference reducer implementing the '
+        'documented rules to a fixpoint (so a lost simplification is detected although values stay correct), no adjacent '
+        'pair of the result may still be accepted by any registered rule, at most one scalar factor remains, equal to '
+        'the product and on the side with fewer elements. ' + EXPL,
+        'The reference reducer encodes the documented patterns only; extra simplifications by furax are recorded, not flagged. Value preservation is C01.',
+        'DESIGN.md section 4 (C07)'),
+    'C08': (
+        'property-based testing: Hypothesis instance generator for every concrete operator class (class walk) plus borderline constructions; numpy matrix-property oracle for every tag that answers True',
+        'Every lineax tag that answers True on a generated instance, and the square/orthogonal decorators of its class, '
+        'are checked against the numpy denotation (zero pattern, symmetry, definiteness, M^T M = I, op.T is op, op.I = '
+        'op.T, mv keeps the structure). One direction only, as the property states. ' + EXPL,
+        'numpy reference model trusted; constructions the library normally refuses are judged only if a modified library accepts them.',
+        'DESIGN.md section 4 (C08)'),
+    'C09': (
+        'property-based testing: Hypothesis configuration generator (n, K incl. K > n, fft_size, batch/broadcast shapes, dtypes, 64-bit mode) running all four methods differentially against a float64 double-loop reference; exhaustive sweep of a small box in the thorough tier',
+        'Each of dense/direct/fft/overlap_save must return T x for the band matrix T built by a double loop (per batch '
+        'row), as_matrix must be the block-diagonal band matrix, T symmetric (op.T is op), output shape/dtype == input\'s, '
+        'invalid methods and FFT sizes must raise ValueError. ' + EXPL,
+        'Band batch shape broadcastable to the input batch shape; band dtype no wider than the data; FFT tolerance 8 (log2 N + 4) eps sum|band| max|x|.',
+        'DESIGN.md section 4 (C09)'),
+    'C11': (
+        'property-based testing + exhaustive enumeration of a small box: axis_destination specifications against an explicit-index-loop numpy oracle that also decides legality',
+        'Generated and enumerated (value shape, axis specification, leaf shapes) triples: illegal ones must raise '
+        'ValueError at construction, legal ones must give exactly the oracle\'s values, structures and dense form, '
+        'independently of build order, dict order and sibling leaves. ' + EXPL,
+        'The loop oracle was written from the docstring and validated against the unchanged tree at design time.',
+        'DESIGN.md section 4 (C11)'),
+    'C13': (
+        'property-based testing + exhaustive enumeration over small shapes: numpy moveaxis/reshape oracle, transpose-is-inverse round trips, permutation-matrix check, no-op reduction iff shapes unchanged, near-miss inverse partners',
+        'Move-axis, ravel and reshape operators are compared exactly with numpy per leaf, their transposes must invert '
+        'them, the two illegal argument categories the property names must raise ValueError, reduce() is the identity iff '
+        'no leaf shape changes, and a different reshape with the same output structure must not be treated as an inverse. ' + EXPL,
+        'No zero-sized dimensions; only the illegal categories the property names are judged.',
+        'DESIGN.md section 4 (C13)'),
+    'C14': (
+        'exhaustive enumeration of the subscript grammar over {h,i,j,k} (119 472 numpy-valid strings) with a numpy adjoint oracle and a spec-side must-accept predicate, plus Hypothesis operator-level cases (shapes, shared/per-leaf blocks, multi-leaf inputs)',
+        'Every string of the grammar is either rejected or rewritten into subscripts that pass the exact integer adjoint '
+        'test; strings in the must-accept class must be transposed; operator-level mv / T.mv / structures agree with '
+        'np.einsum. exhaustive: true refers to the enumerated grammar only. ' + EXPL,
+        'numpy.einsum is the specification; alphabet of four letters; explicit two-operand strings.',
+        'DESIGN.md section 4 (C14)'),
+    'C15': (
+        'property-based testing: Hypothesis chains of polarimetry operators and factory calls against explicit per-element 4x4 Mueller matrices in float64',
+        'Every operator and transpose, every chain before and after reduce(), every factory with and without angles '
+        'must equal the sequential product of explicit Mueller matrices on the components present; reduction must not '
+        'modify its operands. ' + EXPL,
+        'Tolerance (8 n + 8 sum|angle|) eps |x|; angle values as rounded to their dtype.',
+        'DESIGN.md section 4 (C15)'),
+    'C16': (
+        'property-based testing: Hypothesis pointing configurations against an independent numpy pointing model (elementary rotations + healpy.vec2pix) with robustness filtering of boundary directions',
+        'create_projection_operator, create_acquisition (before and after reduce) and P.T @ P (before and after reduce) '
+        'are compared with the explicit Z-Y-Z pointing model, healpy ring pixelisation and numpy hit counts. ' + EXPL,
+        'healpy is the reference; boundary directions (pixel changes under 1e-9 / 2e-4 perturbation) excluded from pixel verdicts and counted; acquisition needs 64-bit mode.',
+        'DESIGN.md section 4 (C16)'),
+    'C17': (
+        'property-based testing + exhaustive enumeration of all small maps: numpy ravel_multi_index oracle for pixel2index, healpy.ang2pix differential for world2index, numpy.bincount for coverage',
+        'pixel2index (value, -1 outside, dtype, bijection and row-major order on every small map), HEALPix world2index '
+        'against healpy on stable directions, get_coverage against the histogram. ' + EXPL,
+        'Exact half-integer coordinates not generated; int64 sub-claim only with x64 on.',
+        'DESIGN.md section 4 (C17)'),
+    'C18': (
+        'property-based / differential testing: eager vs jit-over-closure vs flatten/unflatten vs equinox.filter_jit executions of generated operators of every class; landscape round trips',
+        'Four executions of every generated operator must agree in tree structure, shapes, dtypes and values; landscapes '
+        'must survive flatten/unflatten with all attributes and results. ' + EXPL,
+        'filter_jit skipped for boolean-mask operators as the property states; values compared with a forward error bound.',
+        'DESIGN.md section 4 (C18)'),
+    'C19': (
+        'stateful model-based testing: Hypothesis RuleBasedStateMachine owning worker threads that execute real `with Config(...)` blocks; reference model = one stack of dicts per thread; invariant after every event',
+        'Generated histories (enter / exit / exit-by-exception / read / create-inverse / apply-inverse across threads / '
+        'copied contexts, 1-3 threads, event-level interleavings) are executed against furax and against the stack model; '
+        'active configuration, restoration to the default object, capture by lazy inverses (callback and solver actually '
+        'used) and isolation between threads and contexts are checked after every event. ' + EXPL,
+        'Interleavings at API-event granularity (the harness owns the schedule).',
+        'DESIGN.md section 4 (C19)'),
+    'C20': (
+        'property-based testing: Hypothesis operand/operator/factory/helper generator against per-component numpy arithmetic with operand order preserved',
+        'Binary arithmetic in direct and reflected position with every operand type, unary operations, indexing, '
+        'reshaping, factories with dtype promotion and the pytree helpers are compared with numpy per component; '
+        'unsupported operands and invalid kinds must raise. ' + EXPL,
+        'NumPy ndarrays of rank >= 1 as the other operand are outside the domain (NumPy dispatch).',
+        'DESIGN.md section 4 (C20)'),
+})
+
 NOT_YET = 'check not built yet in this round (planned, see DESIGN.md section 4)'
 
 
